@@ -133,6 +133,24 @@ def generate(R, tier):
             continue
         lines, secs = make_db(R, p, md, ty)
         yield {"stream": "db-ipopts-mtu-window", "md": md, "syn_mss": syn_mss, "spec": spec, "lines": lines, "secs": secs}
+    # SYN+ACKs whose window is a multiple of the PEER's MSS (the value the caller passes as syn_mss) or of that minus 12, and not of the packet's own MSS:
+    # the peer's values are the LAST divisors tried, so whether the record is `mss*N` or `mtu*N` - or none - depends on everything tried before them
+    made = 0
+    while made < n // 20:
+        spec, p, ty = G.rand_wire_pkt(R, flags=0x12)
+        if (spec["flags"] & 0x17) != 0x12 or p["mss"] < 100:
+            continue
+        pm = R.choice([1440, 730, 1000, 536, 1380, 1460, 1452, p["mss"] + 40, 88, 112, R.randrange(13, 2000)])
+        d = R.choice([pm, pm, pm - 12])
+        k = R.choice([1, 2, 3, 4, 5, 10, 20])
+        if d <= 0 or d * k > 65535 or (d * k) % p["mss"] == 0:
+            continue
+        made += 1
+        md = G.rand_md(R)
+        p["syn_mss"] = pm
+        p["win"] = spec["win"] = d * k
+        lines, secs = make_db(R, p, md, ty)
+        yield {"stream": "db-peer-mss-window", "md": md, "syn_mss": pm, "spec": spec, "lines": lines, "secs": secs}
     for c in witness_db_cases(R, n // 12):
         yield c
 
